@@ -11,7 +11,7 @@ Driver ops for the memo-table machine (C11, C12):
   cache.replay_mt  {progs:[[tid,[OP]]], sched:[tid], rc:…, memo:[[g,k,r]]}    → events of the schedule, per-thread Disciplined, all-safe
   cache.indent     {params:[PARAM], sel:[[idx,indent]]}      → params after printing, meaning kept?, __eq__?
   cache.compiler   {}                                         → attribute classification of the compiler-object model
-OP = ["alloc",g,c] | ["mutate",g,c] | ["clear",g] | ["query",g,k,a] | ["drop",g]   (g, c: Nat; k, a, r: String)
+OP = ["alloc",g,c] | ["mutate",g,c] | ["clear",g] | ["query",g,k,a] | ["lookup",g,k,a] | ["store",g,k,a] | ["drop",g]   (g, c: Nat; k, a, r: String)
 -/
 namespace Drv.CacheD
 
@@ -32,6 +32,8 @@ def opOf (j : Json) : R HOp := do
   | [t, g, k, a] =>
     match (← asStr t) with
     | "query" => pure (.query (← asNat g) (← asStr k) (← asStr a))
+    | "lookup" => pure (.lookup (← asNat g) (← asStr k) (← asStr a))
+    | "store" => pure (.store (← asNat g) (← asStr k) (← asStr a))
     | _ => throw "bad op"
   | _ => throw "bad op"
 
@@ -48,6 +50,7 @@ def rcOf (j : Json) : R (Nat → String → String → String) := do
 def outTo : Out String → Json
   | .ok => .arr #["ok"]
   | .val r hit => .arr #["val", .str r, .bool hit]
+  | .miss => .arr #["miss"]
   | .illFormed => .arr #["ill"]
   | .keyError => .arr #["keyerr"]
 
@@ -138,7 +141,8 @@ def handle (op : String) (j : Json) : R Json := do
       let j := Json.mkObj [
         ("len", jNat seg.length),
         ("disciplined", .bool (disciplinedFrom (fun _ => none) seg)),
-        ("isolated", .bool (isolatedFrom (fun _ => false) seg)),
+        ("isolated", .bool (isolatedFrom (fun _ => false) (fun _ => false) seg)),
+        ("guarded", .bool (isolatedFrom (fun _ => true) (fun _ => false) seg)),
         ("alloc_cleared", .bool (allocClearedFrom (fun _ => false) seg)),
         ("tidy", .bool (dirtyAfter [] seg == [])),
         ("dirty_before", jList jNat acc.2.eraseDups)]
@@ -147,7 +151,7 @@ def handle (op : String) (j : Json) : R Json := do
       ("outs", jList outTo outs),
       ("ideal", jList (jOpt jStr) idl),
       ("disciplined", .bool (disciplinedFrom (fun _ => none) h)),
-      ("isolated", .bool (isolatedFrom (fun _ => false) h)),
+      ("isolated", .bool (isolatedFrom (fun _ => false) (fun _ => false) h)),
       ("alloc_cleared", .bool (allocClearedFrom (fun _ => false) h)),
       ("dirty", jList jNat (dirtyAfter [] h).eraseDups),
       ("segments", .arr segJs.reverse.toArray)])
